@@ -1,6 +1,6 @@
 \* C18: theorems + coefficient tables on the quick grid (2 values per symbol)
 CONSTANTS
-    Nets = {"chain2", "branch", "rev", "cycle", "ia", "pl"}
+    Nets = {"chain2", "branch", "rev", "sgn", "cycle", "ia", "iac", "pl"}
     Grid = "quick"
     EmitOn = TRUE
 INIT Init
@@ -12,6 +12,9 @@ INVARIANT Summation
 INVARIANT QuotNearD
 INVARIANT TotalDiffers
 INVARIANT InitIsState
+INVARIANT MSameState
+INVARIANT MDiffers
+INVARIANT SignedWitness
 INVARIANT Witness
 INVARIANT Emit
 CHECK_DEADLOCK FALSE
